@@ -130,6 +130,7 @@ class RetryDriver:
         script = list(self.script)
         objs = {}
         marks = []  # (time, timers/sleeps so far) at every invocation
+        endmark = []  # the same, at the moment the caller has the outcome
         loop = VLoop()
         timers = [0]
         orig_call_at = loop.call_at
@@ -191,14 +192,20 @@ class RetryDriver:
                     try:
                         # the call is made from inside a scope: what the wrapper logs goes through that scope
                         with ctx.scope("retrying %s"):
-                            got = ("val", wrapped())
+                            try:
+                                got = ("val", wrapped())
+                            finally:
+                                endmark.append((loop.time(), len(clock.sleeps)))
                     except BaseException as e:  # noqa: BLE001
                         got = ("exc", e)
                 else:
                     async def outer():
                         try:
                             async with ctx.scope("retrying %s"):
-                                return ("val", await wrapped())
+                                try:
+                                    return ("val", await wrapped())
+                                finally:
+                                    endmark.append((loop.time(), timers[0]))
                         except BaseException as e:  # noqa: BLE001
                             return ("exc", e)
 
@@ -224,16 +231,17 @@ class RetryDriver:
                 loop.shutdown()
         if not warm_ok:
             return dict(status=f"the first call through the wrapper (one caught failure, then success) gave {first!r}",
-                        calls=-1, pauses=(), result=-1)
+                        calls=-1, pauses=(), result=-1, tail=(0, 0))
+        tail = (endmark[0][1] - marks[-1][1], endmark[0][0] - marks[-1][0]) if endmark and marks and not cancel_in_pause else (0, 0)
         if cancel_in_pause:
             calls = len(marks)
             pauses = tuple((marks[i + 1][1] - marks[i][1], marks[i + 1][0] - marks[i][0]) for i in range(len(marks) - 1))
             if got[0] == "exc" and isinstance(got[1], asyncio.CancelledError):
-                return dict(status="raised", calls=calls, pauses=pauses, result=99)
+                return dict(status="raised", calls=calls, pauses=pauses, result=99, tail=tail)
             if got[0] == "exc" and isinstance(got[1], _ScriptEnd):
-                return dict(status="running", calls=calls - 1, pauses=pauses[:calls - 1], result=0)   # it called again
+                return dict(status="running", calls=calls - 1, pauses=pauses[:calls - 1], result=0, tail=tail)   # it called again
             return dict(status="returned" if got[0] == "val" else "raised", calls=calls, pauses=pauses,
-                        result=f"foreign:{type(got[1]).__name__}")
+                        result=f"foreign:{type(got[1]).__name__}", tail=tail)
         ended = got[0] == "exc" and isinstance(got[1], _ScriptEnd)
         calls = len(marks) - 1 if ended else len(marks)
         pauses = tuple((marks[i + 1][1] - marks[i][1], marks[i + 1][0] - marks[i][0])
@@ -241,13 +249,13 @@ class RetryDriver:
         if not ended:
             pauses = pauses[:calls - 1] if calls else ()
         if ended:
-            return dict(status="running", calls=calls, pauses=pauses, result=0)
+            return dict(status="running", calls=calls, pauses=pauses, result=0, tail=tail)
         idx = next((k for k, (kind, o) in objs.items() if o is got[1] and kind == got[0]), None)
         if idx is None:
             res = f"foreign:{type(got[1]).__name__}:{got[1]}"
         else:
             res = idx
-        return dict(status="returned" if got[0] == "val" else "raised", calls=calls, pauses=pauses, result=res)
+        return dict(status="returned" if got[0] == "val" else "raised", calls=calls, pauses=pauses, result=res, tail=tail)
 
 
 def gen_trace(rnd, max_limit=9):
@@ -264,12 +272,12 @@ def gen_trace(rnd, max_limit=9):
         if cfg["mode"] == "async" and cfg["delay"] != "none" and len(tr) > 1 and rnd.random() < 0.15:
             obs = d.apply("CancelInPause", ())
             tr.append(dict(ev="CancelInPause", args=[], obs=dict(status=obs["status"], calls=obs["calls"],
-                                                                 pauses=[list(p) for p in obs["pauses"]], result=obs["result"])))
+                                                                 pauses=[list(p) for p in obs["pauses"]], result=obs["result"], tail=list(obs["tail"]))))
             break
         o = rnd.choice(weights)
         obs = d.apply("Attempt", (o,))
         tr.append(dict(ev="Attempt", args=[o], obs=dict(status=obs["status"], calls=obs["calls"],
-                                                        pauses=[list(p) for p in obs["pauses"]], result=obs["result"])))
+                                                        pauses=[list(p) for p in obs["pauses"]], result=obs["result"], tail=list(obs["tail"]))))
         if obs["status"] != "running":
             break
     return tr
